@@ -2,13 +2,13 @@
 (* Exhaustive design check of ExitFlow: every interleaving, at request granularity, of the commands the honest operators
    may start (Args), the direct requests of a Byzantine operator / outsider (ByzReqs, at most MaxByz), faults on
    requests (Faults, at most MaxFault), a tampering API (Tampers applied to full-exit responses, at most MaxTamper),
-   planted exit files (Plants, at most MaxPlant) and status changes on the beacon chain (Statuses).  Commands are
+   planted exit files (Plants, at most MaxPlant) and status changes on the beacon chain (Statuses, at most MaxChain).  Commands are
    started in the order of their identifiers (symmetry).  All bounds are here, none in the actions. *)
 EXTENDS ExitFlow
-CONSTANTS Honest, Args, ByzReqs, MaxByz, Faults, MaxFault, Tampers, MaxTamper, Plants, MaxPlant, Statuses, InitSt, Policy
-VARIABLES nbyz, nfault, ntamper, nplant
-mcvars == <<vars, nbyz, nfault, ntamper, nplant>>
-Budget == <<nbyz, nfault, ntamper, nplant>>
+CONSTANTS Honest, Args, ByzReqs, MaxByz, Faults, MaxFault, Tampers, MaxTamper, Plants, MaxPlant, Statuses, MaxChain, InitSt, Policy
+VARIABLES nbyz, nfault, ntamper, nplant, nchain
+mcvars == <<vars, nbyz, nfault, ntamper, nplant, nchain>>
+Budget == <<nbyz, nfault, ntamper, nplant, nchain>>
 
 A(kind, sel, v, iv, e, src, fv) == [kind |-> kind, sel |-> sel, v |-> v, iv |-> iv, e |-> e, src |-> src, fv |-> fv]
 Sign(v, e) == A("sign", "pk", v, 0, e, "-", 0)
@@ -44,6 +44,7 @@ ByzB(b) == {P(b, b, 1, 1, 1, 1, b), P(b, b, 1, 2, 1, 1, b),         \* its parti
 ByzOut == {P(1, 0, 1, 1, 1, 1, 1), Req("GET", 1, 0, 1, <<>>), Req("DELETE", 1, 0, 1, <<>>),
            [Req("GET", 1, 0, 1, <<>>) EXCEPT !.noauth = TRUE]}
 Byz3 == ByzB(3)
+Byz4 == ByzB(4) \cup ByzOut
 Byz3Out == ByzB(3) \cup ByzOut
 ByzNone == {}
 
@@ -88,7 +89,7 @@ StartOK(o, a) == CASE Policy = "free" -> TRUE
                    [] Policy = "live" -> IF a.kind = "sign" THEN ~HasOK(o, "sign")
                                          ELSE o = 1 /\ (\A p \in Honest : HasOK(p, "sign")) /\ ~HasOK(1, "bcast")
 
-MCInit == InitWith(InitSt) /\ nbyz = 0 /\ nfault = 0 /\ ntamper = 0 /\ nplant = 0
+MCInit == InitWith(InitSt) /\ nbyz = 0 /\ nfault = 0 /\ ntamper = 0 /\ nplant = 0 /\ nchain = 0
 
 First(c) == \A d \in Cmds : d < c => cmd[d].pc # "idle"
 EnvStart == \E c \in Cmds : First(c) /\ \E o \in Honest : \E a \in Args : StartOK(o, a) /\ Start(c, o, a)
@@ -97,20 +98,23 @@ Deliver(c) == LET res == Served(c) IN IF res.status = 200 /\ ApiReq(c).m = "GET"
 Step(c) == \/ Finish(c) \/ BnVals(c, "none") \/ (\E v \in Vals : BnSubmit(c, v, "none"))
            \/ ApiStep(c, "none", 0, Deliver(c))
 Steps == (\E c \in Cmds : Step(c)) /\ UNCHANGED Budget
-Faulty == /\ nfault < MaxFault /\ nfault' = nfault + 1 /\ UNCHANGED <<nbyz, ntamper, nplant>>
+Faulty == /\ nfault < MaxFault /\ nfault' = nfault + 1 /\ UNCHANGED <<nbyz, ntamper, nplant, nchain>>
           /\ \E c \in Cmds : \/ \E f \in Faults : ApiStep(c, f[1], f[2], NoResp)
                              \/ (Faults # {} /\ BnVals(c, "err"))
                              \/ (Faults # {} /\ \E v \in Vals : BnSubmit(c, v, "err"))
-Tampering == /\ ntamper < MaxTamper /\ ntamper' = ntamper + 1 /\ UNCHANGED <<nbyz, nfault, nplant>>
+Tampering == /\ ntamper < MaxTamper /\ ntamper' = ntamper + 1 /\ UNCHANGED <<nbyz, nfault, nplant, nchain>>
              /\ \E c \in Cmds : Deliver(c) # NoResp /\ \E k \in Tampers : ApiStep(c, "none", 0, Tamper(k, Deliver(c)))
-Byzantine == /\ nbyz < MaxByz /\ nbyz' = nbyz + 1 /\ UNCHANGED <<nfault, ntamper, nplant>>
+Byzantine == /\ nbyz < MaxByz /\ nbyz' = nbyz + 1 /\ UNCHANGED <<nfault, ntamper, nplant, nchain>>
              /\ \E q \in ByzReqs : Byz(q)
-Planting == /\ nplant < MaxPlant /\ nplant' = nplant + 1 /\ UNCHANGED <<nbyz, nfault, ntamper>>
+Planting == /\ nplant < MaxPlant /\ nplant' = nplant + 1 /\ UNCHANGED <<nbyz, nfault, ntamper, nchain>>
             /\ \E p \in Plants : p[2] \in Vals /\ p[3] \in Vals /\ Plant(p[1], p[2], p[3], p[4], p[5], p[6])
-Chain == (\E v \in Vals : \E s \in Statuses : status[v] # s /\ SetStatus(v, s)) /\ UNCHANGED Budget
+Chain == /\ nchain < MaxChain /\ nchain' = nchain + 1 /\ UNCHANGED <<nbyz, nfault, ntamper, nplant>>
+         /\ \E v \in Vals : \E s \in Statuses : status[v] # s /\ SetStatus(v, s)
 
 MCNext == (EnvStart /\ UNCHANGED Budget) \/ Steps \/ Faulty \/ Tampering \/ Byzantine \/ Planting \/ Chain
 MCSpec == MCInit /\ [][MCNext]_mcvars
+\* `last` is only read (primed) by the action properties, on the transition that sets it
+View == <<store, present, status, pool, disk, cmd, produced, nbyz, nfault, ntamper, nplant, nchain>>
 
 \* the action properties of ExitFlow are stated over vars; here the budgets are variables too
 MCDeleteOnlyOwn == [][\A v \in Vals : \A k \in Ops : Cnt(store'[v], k) < Cnt(store[v], k) =>
